@@ -1,5 +1,5 @@
 //@file src/append/file.rs
-//@harness c04_file_append strength=bounded bound="one append call; encoder writing 0..=3 bytes and succeeding or failing; flush succeeding (the failing-flush path converts io::Error into anyhow::Error, which CBMC does not finish); parking_lot slow paths replaced by no-ops" timeout=900 replay=no
+//@harness c04_file_append strength=bounded bound="one append call; encoder writing 0..=3 bytes and succeeding or failing; flush succeeding (the failing-flush path converts io::Error into anyhow::Error, which CBMC does not finish); parking_lot slow paths replaced by no-ops" timeout=2400 replay=no
 // FileAppender::append: the record is encoded and the buffered writer flushed exactly once each, in that order, while the
 // appender's mutex is held; Ok is returned only after the flush succeeded; the mutex is released afterwards; errors of
 // the encoder and of the flush are returned.
